@@ -889,7 +889,7 @@ def check_run(ri, run, fresh):
         d["pi_before"], d["pi_prop"] = pi_b, pi_p
         h = c["hastings"]
         # 1. density used for the proposed state
-        if math.isinf(h):
+        if math.isinf(h) or math.isnan(h):
             if c["joint_calls"]:
                 pass  # evaluating anyway is harmless
         else:
